@@ -35,19 +35,46 @@ fn mol(s: &str) -> HashFunctions {
     }
 }
 
+/// sketches holding more than this many hashes are answered by a digest instead of the lists
+const DIGEST_ABOVE: usize = 200;
+
+/// `#<count>:<xor of the hashes>` for a long hash list, the list itself otherwise
+fn show_mins(m: &[u64]) -> String {
+    if m.len() > DIGEST_ABOVE {
+        format!("#{}:{}", m.len(), m.iter().fold(0u64, |x, h| x ^ h))
+    } else {
+        show_nats(m.iter().cloned())
+    }
+}
+
+/// `#<sum of abundances>:<xor of hash * (2 * abundance + 1) mod 2^64>` next to a long hash list
+fn show_abunds(m: &[u64], a: &[u64]) -> String {
+    if m.len() > DIGEST_ABOVE {
+        let sum: u128 = a.iter().map(|x| *x as u128).sum();
+        let mix = m.iter().zip(a.iter()).fold(0u64, |x, (h, a)| x ^ h.wrapping_mul(a.wrapping_mul(2).wrapping_add(1)));
+        format!("#{}:{}", sum, mix)
+    } else {
+        show_nats(a.iter().cloned())
+    }
+}
+
+fn show_obs(m: &[u64], a: &Option<Vec<u64>>) -> String {
+    format!(
+        "mins={} abunds={}",
+        show_mins(m),
+        match a {
+            Some(a) => show_abunds(m, a),
+            None => "none".into(),
+        }
+    )
+}
+
 fn obs(r: &Reg) -> String {
     let (m, a) = match r {
         Reg::V(x) => (x.mins(), x.abunds()),
         Reg::T(x) => (x.mins(), x.abunds()),
     };
-    format!(
-        "mins={} abunds={}",
-        show_nats(m),
-        match a {
-            Some(a) => show_nats(a),
-            None => "none".into(),
-        }
-    )
+    show_obs(&m, &a)
 }
 
 fn parse_pairs(s: &str) -> Vec<(u64, u64)> {
@@ -345,11 +372,11 @@ unsafe fn ffi_obs(h: H) -> String {
         if let Some(e) = ffi_end() {
             return e;
         }
-        show_nats(take_slice(p, n))
+        Some(take_slice(p, n))
     } else {
-        "none".into()
+        None
     };
-    format!("mins={} abunds={}", show_nats(mins), ab)
+    show_obs(&mins, &ab)
 }
 
 /// run `f` on the register as a C handle and put the (possibly modified) sketch back
@@ -681,7 +708,7 @@ fn step(st: &mut St, ws: &[&str]) -> String {
                 _ => return "bad-op".into(),
             };
             match res {
-                Ok((c, u)) => format!("common={} union={}", show_nats(c), u),
+                Ok((c, u)) => format!("common={} union={}", show_mins(&c), u),
                 Err(e) => err(e),
             }
         }
@@ -1090,6 +1117,93 @@ fn gen_sig_cases(o: &mut Out, r: &mut Rng, n: u64) {
     }
 }
 
+/// "large batch" family: ONE call of add_many / add_many_with_abund / add_from / merge / remove_many
+/// (and the C API spellings) with 500-5000 elements, duplicates included, sizes straddling 511/512/513,
+/// 1023/1025, 4095/4097; sketches answered by digests (`DIGEST_ABOVE`).  The spec column is the sketch
+/// of the whole insertion multiset, so "sketching two halves separately and merging = sketching the
+/// concatenation in one call, summed abundances" is checked on every case.
+fn gen_big(o: &mut Out, r: &mut Rng, rounds: u64) {
+    const SZ: [u64; 13] = [512, 513, 511, 1025, 1023, 600, 4097, 4095, 2000, 5000, 1024, 4096, 500];
+    let mut i = 0u64;
+    for _ in 0..rounds {
+        for tree in [false, true] {
+            for track in [true, false] {
+                for param in 0..3u64 {
+                    let ty = if tree { "tree" } else { "vec" };
+                    let capi = !tree && i % 2 == 1;
+                    let pa = Params {
+                        scaled: [1u64, 2, 0][param as usize],
+                        num: if param == 2 { *r.pick(&[300u64, 700, 1500]) } else { 0 },
+                        ksize: 21,
+                        mol: "dna",
+                        seed: 42,
+                        track,
+                        max_hash: None,
+                    };
+                    let (s1, s2, s3) = (SZ[(i % 13) as usize], SZ[((i * 5 + 3) % 13) as usize], SZ[((i * 7 + 1) % 13) as usize]);
+                    // number of distinct values the batches are drawn from: below, around and above the
+                    // batch sizes (every batch longer than the pool repeats hashes)
+                    let distinct = match i % 4 {
+                        3 => 4200,
+                        0 => 300,
+                        1 => 700,
+                        _ => 1100,
+                    };
+                    let mh = pa.ceiling();
+                    let pool: Vec<u64> = (0..distinct)
+                        .map(|_| {
+                            if mh != 0 && mh != u64::MAX && r.chance(1, 8) {
+                                mh.saturating_add(r.range(0, 3000))
+                            } else {
+                                r.below(1 << 22)
+                            }
+                        })
+                        .collect();
+                    let draw = |r: &mut Rng, n: u64| -> Vec<u64> { (0..n).map(|_| *r.pick(&pool)).collect() };
+                    o.case(&format!(
+                        "{} big num={} scaled={} mh={}{} sizes {}/{}/{} distinct {}",
+                        ty, pa.num, pa.scaled, mh, if capi { " capi" } else { "" }, s1, s2, s3, distinct
+                    ));
+                    let a = draw(r, s1);
+                    emit(o, r, capi, &pa.line(0));
+                    emit(o, r, capi, &format!("addm 0 {}", show_nats(a.iter().cloned())));
+                    // the same data sketched in two halves and merged
+                    emit(o, r, capi, &pa.line(1));
+                    emit(o, r, capi, &pa.line(2));
+                    let cut = (s1 / 2) as usize;
+                    emit(o, r, capi, &format!("addm 1 {}", show_nats(a[..cut].iter().cloned())));
+                    emit(o, r, capi, &format!("addm 2 {}", show_nats(a[cut..].iter().cloned())));
+                    emit(o, r, capi, "merge 1 2");
+                    emit(o, r, capi, "isize 0 1");
+                    // add_many_with_abund in one call
+                    let p: Vec<(u64, u64)> = draw(r, s2).into_iter().map(|h| (h, r.range(1, 3))).collect();
+                    emit(o, r, capi, &pa.line(3));
+                    o.op(&format!("add 3 {}", show_items(&p)));
+                    emit(o, r, capi, "addfrom 3 0");
+                    emit(o, r, capi, "cc 3 0 0");
+                    emit(o, r, capi, "isize 3 0");
+                    o.op("isect 0 3");
+                    o.op("copy 4 3");
+                    emit(o, r, capi, "merge 4 0");
+                    let rm = draw(r, s3);
+                    emit(o, r, capi, &format!("rmmany 4 {}", show_nats(rm.iter().cloned())));
+                    o.op("copy 5 0");
+                    emit(o, r, capi, "rmfrom 5 1");
+                    if !tree {
+                        o.op("copy 6 0");
+                        o.op(&format!("csetab 6 {} {}", i % 2, show_items(&p)));
+                    }
+                    // a second big batch into the already large sketch (non-empty receiver)
+                    let b = draw(r, s3);
+                    emit(o, r, capi, &format!("addm 0 {}", show_nats(b.iter().cloned())));
+                    emit(o, r, capi, "obs 1");
+                    i += 1;
+                }
+            }
+        }
+    }
+}
+
 fn gen(a: &Args) {
     let mut r = Rng::new(a.seed);
     let mut o = Out::new();
@@ -1103,9 +1217,11 @@ fn gen(a: &Args) {
     let mols = ["dna", "protein", "dayhoff", "hp"];
     // Signature::add_sequence / add_protein over several sketches (T-sig_add), one case in six
     gen_sig_cases(&mut o, &mut r, ncases / 6);
+    // a few large-batch cases (quick: one round = 12 cases)
+    gen_big(&mut o, &mut r, if a.tier == "thorough" { 8 } else { 1 });
     for ci in 0..ncases {
         let ty = if ci % 2 == 0 { "vec" } else { "tree" };
-        let kind = r.below(12);
+        let kind = r.below(13);
         // the C API knows the vector type only; half of its cases go (mostly) through it
         let capi = ty == "vec" && r.chance(1, 2);
         // parameters of the first operand
@@ -1125,7 +1241,7 @@ fn gen(a: &Args) {
         }
         // a num bound AND a ceiling (KmerMinHash::new(scaled, .., num) / the builder allow it; the
         // property does not speak about such sketches): model column only
-        let hybrid = kind >= 2 && r.chance(1, 25);
+        let hybrid = kind >= 2 && kind != 12 && r.chance(1, 25);
         if hybrid {
             pa.num = *r.pick(&[1u64, 3, 8]);
             if is_num {
@@ -1251,7 +1367,9 @@ fn gen(a: &Args) {
             emit_add(&mut o, &mut r, capi, 1, &ib);
             emit(&mut o, &mut r, capi, "params 0");
             emit(&mut o, &mut r, capi, "params 1");
-            let mut ops = vec!["merge 0 1", "merge 1 0", "isect 0 1", "isect 1 0", "cc 0 1 0", "cc 1 0 0"];
+            // count_common also with downsample = true: when the scaled values differ too, the
+            // error is the one of the OTHER mismatching parameter (T-reject_downsample)
+            let mut ops = vec!["merge 0 1", "merge 1 0", "isect 0 1", "isect 1 0", "cc 0 1 0", "cc 1 0 0", "cc 0 1 1", "cc 1 0 1"];
             if ty == "vec" {
                 ops.extend(["inflate 0 1", "inflate 1 0", "infab 0 1", "infab 1 0", "cisect 2 0 1", "cisect 2 1 0", "ccompat 0 1", "ccompat 1 0"]);
             }
@@ -1270,7 +1388,7 @@ fn gen(a: &Args) {
             }
             continue;
         }
-        if kind >= 10 {
+        if kind == 10 || kind == 11 {
             // ---- pouring between sketches of DIFFERENT parameters through the entry points that check
             // nothing (add_from, add_many, add_many_with_abund, remove_from, remove_many, set_abundances;
             // native and C API): every hash goes through the receiver's own admission rule
@@ -1339,6 +1457,72 @@ fn gen(a: &Args) {
             emit(&mut o, &mut r, capi, "rmfrom 7 0");
             emit(&mut o, &mut r, capi, "obs 0");
             emit(&mut o, &mut r, capi, "obs 1");
+            continue;
+        }
+        if kind == 12 {
+            // ---- downsample = true on operands that differ in scaled AND in one (or two) more
+            // parameters: ksize / molecule / seed, or a num sketch against a scaled one.  The
+            // recursion through downsample_scaled must still end in check_compatible.
+            let scs = [1u64, 2, 3, 10, 1000, 1 << 20];
+            let sa = *r.pick(&scs);
+            let mut sb = *r.pick(&scs);
+            while sb == sa {
+                sb = *r.pick(&scs);
+            }
+            pa.scaled = sa;
+            pa.num = 0;
+            pa.max_hash = None;
+            let mut pb = pa.clone();
+            pb.scaled = sb;
+            pb.track = r.chance(1, 2);
+            let what = r.below(6);
+            let mut tagk = vec![];
+            if what == 0 || what == 3 {
+                pb.ksize = if pa.ksize == 21 { 31 } else { 21 };
+                tagk.push("ksize");
+            }
+            if what == 1 || what == 3 || what == 4 {
+                pb.mol = mols[((mols.iter().position(|m| *m == pa.mol).unwrap() as u64 + r.range(1, 3)) % 4) as usize];
+                tagk.push("mol");
+            }
+            if what == 2 || what == 4 {
+                pb.seed = if pa.seed == 42 { 7 } else { 42 };
+                tagk.push("seed");
+            }
+            if what == 5 {
+                // num against scaled (scaled() = 0 on the num side), plus sometimes another parameter
+                pb.scaled = 0;
+                pb.num = *r.pick(&[1u64, 3, 8]);
+                tagk.push("num-vs-scaled");
+                if r.chance(1, 2) {
+                    pb.ksize = if pa.ksize == 21 { 31 } else { 21 };
+                    tagk.push("ksize");
+                }
+            }
+            let (p0, p1) = if r.chance(1, 2) { (pa.clone(), pb.clone()) } else { (pb.clone(), pa.clone()) };
+            o.case(&format!("{} downsample-incompatible {} scaled {}/{}{}", ty, tagk.join("+"), p0.scaled, p1.scaled, if capi { " capi" } else { "" }));
+            let mut u = universe(&mut r, p0.ceiling());
+            for x in universe(&mut r, p1.ceiling()) {
+                if !u.contains(&x) {
+                    u.push(x);
+                }
+            }
+            emit(&mut o, &mut r, capi, &p0.line(0));
+            emit(&mut o, &mut r, capi, &p1.line(1));
+            let ka = subset(&mut r, &u, 2, 3);
+            let kb = subset(&mut r, &u, 2, 3);
+            let (ia, ib) = (items(&mut r, &ka, 4), items(&mut r, &kb, 4));
+            emit_add(&mut o, &mut r, capi, 0, &ia);
+            emit_add(&mut o, &mut r, capi, 1, &ib);
+            if r.chance(1, 3) {
+                let w = r.below(2);
+                o.op(&format!("conv {} {} clone", w, w));
+            }
+            for op in ["cc 0 1 1", "cc 1 0 1", "cc 0 1 0", "cc 1 0 0"] {
+                emit(&mut o, &mut r, capi, op);
+                emit(&mut o, &mut r, capi, "obs 0");
+                emit(&mut o, &mut r, capi, "obs 1");
+            }
             continue;
         }
         // ---- compatible pair / triple
